@@ -352,3 +352,13 @@ c.cases([{'q': 0, 'active': 0}, {'q': 'any+', 'active': 1}, {'q': 'any+', 'activ
 c.ensures('nothing-waits-any-more', 'len(self._queue) == 0')
 c.ensures('running-jobs-untouched', "self._active_agent is old(self._active_agent) and len(self._background) == len(old(self._background)) "
           "and len(ghost('started')) == 0 and len(ghost('stop_requests')) == 0")
+
+
+# ---- what every contract of this file takes on trust (listed in the evidence)
+for _c in spec.REGISTRY:
+    if _c.path == JC and _c.serves:
+        _c.assume_note('C08 monitor rule (DESIGN 2.8): the guarded fields of JobControl are written only while its re-entrant lock is held, so each '
+                       'method is verified sequentially from an arbitrary state satisfying the monitor invariant; interleavings of whole critical '
+                       'sections are covered by that, interleavings INSIDE them are excluded by the lock (trusted: threading.RLock)')
+        _c.assume_note('C08 rely: a read of the job slot made without holding the lock may be out of date once the lock is held (add_job / insert_job); '
+                       'the racy snapshots of has_jobs / is_running / get_current / stop_current are taken as the value at one instant')
